@@ -1090,9 +1090,14 @@ class Interp:
                 if eq is not False and self.truth(eq):
                     o[kk] = v
                     return
-            raise Unreached('store under a symbolic key into a concrete dict')
+            # the path condition now says k differs from every existing key: a new entry
+            # (symbolic keys hash by identity, lookups go through the comparisons above / in getitem / contains)
+            o[k] = v
+            return
         try:
             o[k] = v
+        except PyRaise:
+            raise  # raised into the subject by a stub's __setitem__
         except Exception as e:
             raise PyRaise(ExcVal(type(e), e.args, real=e))
 
